@@ -514,6 +514,10 @@ def gen_config(rng, profile='C01'):
             omit += ['Tdown4']
     cfg['omit'] = omit
     cfg['freeze'] = g.weighted([('freeze_data', 3), ('load_data', 1)])
+    cfg['hand_assigned'] = (g.subset(
+        ['alpha', 'Kdown3', 'gammadown3', 'betaup3', 'rho0', 'press', 'gxx',
+         'kxx', 'dtalpha', 'Tdown4'], 0.1, 0.5)
+        if cfg['freeze'] == 'load_data' and g.chance(0.4) else [])
     # inputs supplied only after the caller has looked at their default
     cfg['late_inputs'] = (g.subset(
         ['Kdown3', 'alpha', 'dtalpha', 'betaup3', 'dtbetaup3', 'rho0',
@@ -629,11 +633,14 @@ class World:
                 self.exact['cur']['Riemann_down4']))))
         self.h = min(p['dx'], p['dy'], p['dz'])
 
-    def make(self, knobs=True, perturb=None):
+    def make(self, knobs=True, perturb=None, fd=None):
         import aurel
         cfg = self.cfg
-        fd = aurel.FiniteDifference(cfg['param'], boundary=cfg['boundary'],
-                                    fd_order=cfg['fd_order'], verbose=False)
+        if fd is None:
+            fd = aurel.FiniteDifference(cfg['param'],
+                                        boundary=cfg['boundary'],
+                                        fd_order=cfg['fd_order'],
+                                        verbose=False)
         if fd.x.shape != (cfg['param']['Nx'], cfg['param']['Ny'],
                           cfg['param']['Nz']):
             raise AssertionError('grid parameters do not give the grid')
@@ -666,7 +673,13 @@ class World:
                 v = v * (1.0 + 1e-15 * perturb.uniform(-1, 1, v.shape))
             arrays[k] = v
         if cfg['freeze'] == 'load_data':
-            rel.load_data({k: [None, v] for k, v in arrays.items()}, 1)
+            # some inputs may have been assigned by hand before; load_data
+            # (the only freezing call then) freezes everything in data
+            hand = [k for k in cfg.get('hand_assigned', []) if k in arrays]
+            for k in hand:
+                rel.data[k] = arrays[k]
+            rel.load_data({k: [None, v] for k, v in arrays.items()
+                           if k not in hand}, 1)
         else:
             late = [k for k in cfg.get('late_inputs', []) if k in arrays] \
                 if knobs else []
@@ -777,6 +790,33 @@ def gen_ops(rng, cfg, profile='C01', nmax=24):
         if r < 0.08:
             nm, args, kw = g.pick(HELPER_SPECS)
             ops.append({'op': 'HELPER', 'name': nm, 'args': args, 'kw': kw})
+            if g.chance(0.5):
+                # the same helper again on other temporaries (c * field)
+                for _ in range(g.randint(1, 3)):
+                    ops.append({'op': 'HELPER', 'name': nm, 'args': args,
+                                'kw': kw, 'scale': g.pick([2.0, -0.5, 3.0,
+                                                           0.25]),
+                                'temporary': profile != 'C02'})
+                ops[-g.randint(1, 2)]['temporary'] = profile != 'C02'
+            continue
+        if r < 0.14 and profile == 'C03':
+            # a run-time option changed on the live object between requests
+            # (as the example notebook does with rel.tetrad): nothing frozen
+            # may go away
+            ops.append({'op': 'SET_OPTION', 'name': g.pick(
+                ['tetrad', 'tetrad', 'lmax', 'interp_method', 'Lambda']),
+                'i': g.randrange(4)})
+            continue
+        if r < 0.11 and profile in ('C01', 'C02', 'C10'):
+            # another AurelCore object in the same process, same grid,
+            # another spacetime, asked something in between
+            ops.append({'op': 'OTHER', 'key': g.pick(
+                ['st_Riemann_down4', 'Kretschmann', 's_Ricci_down3',
+                 'Hamiltonian', 'st_Weyl_down4', 'gammaup3', 'Weyl_Psi',
+                 's_Gamma_udd3', 'Ktrace'] + [g.pick(keys)])})
+            continue
+        if False:
+            pass
         elif r < 0.16 and requested:
             ops.append({'op': 'SET_IMPORTANCE', 'key': g.pick(
                 requested + hood), 'w': g.pick([0, 0.002, 0.1, 1, 10, 100])})
@@ -821,6 +861,12 @@ def gen_ops(rng, cfg, profile='C01', nmax=24):
     if g.chance({'C01': 0.5, 'C02': 0.3, 'C03': 0.3}.get(profile, 0.0)):
         ops.append({'op': 'AUDIT', 'n': g.randint(4, 14),
                     'seed': g.randrange(1 << 30)})
+    if profile == 'C02' and cfg.get('freeze') == 'load_data' \
+            and g.chance(0.5):
+        # at the end: the same object is given another time step through
+        # load_data; the arrays of the first one (the caller's) and whatever
+        # was handed out must stay as they are
+        ops.append({'op': 'LOAD_OTHER'})
     return ops, foci
 
 
@@ -836,8 +882,11 @@ def perform(rel, world, op, reg=None):
             return val
         return rel[op['key']]
     if op['op'] == 'HELPER':
-        args = [world.argfield(k) for k in op['args']]
-        if reg is not None:       # user-supplied arrays: monitored by C02
+        # (a scaled copy: helper arguments are usually temporaries such as
+        # c * v, which die after the call unless somebody keeps them)
+        args = [world.argfield(k) * op.get('scale', 1.0) for k in op['args']]
+        if reg is not None and not op.get('temporary'):
+            # user-supplied arrays the caller keeps: monitored by C02
             for n, a in enumerate(args):
                 reg.add(f"argument {n} of {op['name']}", a)
         kw = dict(op['kw'])
@@ -889,7 +938,8 @@ class Engine:
         if op['op'] == 'GET':
             return op['key']
         return 'H:' + op['name'] + ':' + ','.join(op['args']) + ':' + \
-            ','.join(f'{k}={v}' for k, v in sorted(op['kw'].items()))
+            ','.join(f'{k}={v}' for k, v in sorted(op['kw'].items())) + (
+                f"*{op['scale']}" if op.get('scale', 1.0) != 1.0 else '')
 
     def fresh(self, op, perturb=None):
         ok = self.opkey(op)
@@ -930,6 +980,23 @@ class Engine:
         cfg = self.cfg
         rel, arrays = self.world.make(knobs=True)
         self.rel = rel
+        self.other = None
+        if any(o['op'] == 'OTHER' for o in self.run['ops']):
+            # a second object of the same session: same grid (in half of the
+            # runs the very same FiniteDifference object), another spacetime
+            import copy as _copy
+            c2 = _copy.deepcopy(cfg)
+            if c2['cls'] == 'OFF':
+                c2['spec']['npseed'] += 7919
+            else:
+                c2['spec']['t0'] = c2['spec']['t0'] + 0.37
+            c2['late_inputs'] = []
+            share = (zlib.crc32(repr(sorted(
+                o.get('key', '') for o in self.run['ops'])).encode()) % 2 == 0)
+            self.other = World(c2).make(
+                knobs=True, fd=rel.fd if share else None)[0]
+            if share:
+                self.probe('second_object_shares_the_grid_object')
         # C03 wants to SEE a frozen input being altered (checksum oracle I1),
         # so there the read-only flag is not set; everywhere else it is, which
         # names the source line of an in-place write
@@ -969,6 +1036,66 @@ class Engine:
                 self.tr.event('load_more', keys=ks)
                 self._c03(rel, m, frozen, frozen_obj, ids_before, [], opi,
                           'LOAD_MORE', ('ok', None))
+                continue
+            if op['op'] == 'SET_OPTION':
+                vals = {'tetrad': ['quasi-Kinnersley', 'other'],
+                        'lmax': [2, 3, 4], 'Lambda': [0.0, 0.1, -0.3],
+                        'interp_method': ['linear', 'nearest', 'cubic']}[
+                            op['name']]
+                try:
+                    setattr(rel, op['name'], vals[op['i'] % len(vals)])
+                except Exception as e:  # noqa: BLE001
+                    self.viol.append({
+                        'prop': 'C03', 'sig': f'set_option:raised:'
+                        f'{type(e).__name__}', 'op': opi,
+                        'msg': f'op#{opi} rel.{op["name"]} = ... raised {e}'})
+                self.fault('option_changed_on_live_object')
+                self.tr.event('set_option', op=op)
+                self._c03(rel, m, frozen, frozen_obj, ids_before, [], opi,
+                          'SET_OPTION ' + op['name'], ('ok', None))
+                continue
+            if op['op'] == 'LOAD_OTHER':
+                other = {k: [arrays[k], np.array(arrays[k]) * 1.01 + 0.001]
+                         for k in sorted(arrays)}
+                for k in sorted(other):
+                    reg.add(f'second time step of {k!r}', other[k][1])
+                try:
+                    rel.load_data(other, 1)
+                    self.fault('load_data_other_step')
+                    rel[self.run['ops'][0].get('key', 'Ktrace')]
+                except Exception as e:  # noqa: BLE001
+                    if 'read-only' in str(e):
+                        site, line = exc_site(e)
+                        self.viol.append({
+                            'prop': 'C02',
+                            'sig': f'mutation:write_in:{site}', 'op': opi,
+                            'msg': f'op#{opi} load_data of another time step '
+                                   f'wrote in place at {site}: `{line}`'})
+                for nm, x in reg.changed():
+                    self.viol.append({
+                        'prop': 'C02',
+                        'sig': f'mutation:changed:{nm.split("[")[0]}',
+                        'op': opi,
+                        'msg': f'op#{opi} load_data of another time step '
+                               f'changed the contents of {nm} in place'})
+                self.tr.event('load_other')
+                break
+            if op['op'] == 'OTHER':
+                try:
+                    self.other[op['key']]
+                except Exception:  # noqa: BLE001 - claims nothing
+                    pass
+                self.fault('second_object_in_process')
+                self.tr.event('other', key=op['key'])
+                # whatever the main object handed out must be unchanged
+                for nm, x in reg.changed():
+                    self.viol.append({
+                        'prop': 'C02',
+                        'sig': f'mutation:changed:{nm.split("[")[0]}',
+                        'op': opi,
+                        'msg': f'op#{opi}: a request on ANOTHER AurelCore '
+                               f'object changed the contents of {nm} in '
+                               f'place'})
                 continue
             if op['op'] == 'TOUCH_ALL':
                 # the user looks at everything that is cached (pure hits):
